@@ -36,7 +36,7 @@ text = ["## 10. Seeded changes (realistic property-breaking edits) and what catc
         "`tools/seedall.sh` applies each to a scratch worktree and runs the quick checks of its property",
         "with a frozen copy of the verifier and ledgers; the outcome is stored in `seeded/<id>/result.json`.",
         "", "%d of %d caught at the commit of the last run." % (det, len(rows)), "",
-        "Five rounds (33, 20, 20, 36 and 12 changes; later rounds were told which functions earlier",
+        "Five rounds (33, 20, 20, 36 and 24 changes; later rounds were told which functions earlier",
         "rounds had used). Changes that were first MISSED and what was strengthened because of them",
         "(every one is caught now): C15-3 second fork gate under contract; C17-3 and C01-5 `Import`",
         "under contract (found two defects); C04-4 scripts issued from a tracer's QueueEnd hook; C06-4",
@@ -50,10 +50,13 @@ text = ["## 10. Seeded changes (realistic property-breaking edits) and what catc
         "after disposal; C04-6 mutations issued from an Eval func; C11-5 / C11-6 VerifyStates with a",
         "repeated name, order after a fault; C20-8 concrete search for NEW failing obligations; C13-7 /",
         "C13-8 shared WhenTime, late OnDispose; C17-8 Export inside a transition; C06-7 completed",
-        "context-bound multi-state When; C01-8 shared copy of the state names kept consistent. Earlier",
+        "context-bound multi-state When; C01-8 shared copy of the state names kept consistent; C03-8 Can*",
+        "on the removal of inactive states; C02-7 / C02-8 emitEvents and setupAccepted also under C02; C14-7",
+        "TracerDetach under contract and detach cases in the tracer stand-in; C05-7 negotiation family also",
+        "under C05. Earlier",
         "rounds: see 8.2 (loop-head havoc found through C14-1) and the `check_props` entries of the",
         "seeds that a neighbouring property's check catches (C01-4 by C02, C14-4 by C17). Still missed,",
-        "with the reason in the table: C15-2, C15-5, C16-6, C17-4.", "",
+        "with the reason in the table: C12-8, C15-2, C15-5, C16-6, C17-4.", "",
         "| seed | change | outcome of the check |", "|---|---|---|"] + rows + [""]
 s = open(V + "/DESIGN.md").read()
 a, b = "<!-- seedtable:begin -->", "<!-- seedtable:end -->"
